@@ -10,6 +10,9 @@
      StaleRead    running when the server answered before the body was consumed; its next Read moves the shared
                   source offset under the current attempt unless the attempt's end fenced it
      StaleStop    the earlier connection is finally torn down
+     Respond("srcfault")  the source stream itself fails part way through this attempt's body (disk / NFS read error):
+                  the request is aborted - the server's read of the body ends in an error, never in a clean end of
+                  stream - and the operation fails; a compressor between source and wire must pass the failure on
 
    The source stream is one *os.File shared by every attempt (signers/transform.go fileProducer.GetReader seeks it
    back to 0), so "what the server receives" depends on no other reader moving the offset.  *)
@@ -24,7 +27,7 @@ CONSTANTS MaxBases,     \* directory lists 1..MaxBases servers
           Variant       \* "code" or a named mutation of the loop
 
 Offers == {"none", "gzip", "snappy+gzip", "unknown"}
-Resp == {"ok", "s503", "early503", "s406", "s400", "refused"}
+Resp == {"ok", "s503", "early503", "s406", "s400", "refused", "srcfault"}
 Temporary(r) == r \in {"s503", "early503", "refused"}
 FullBody(r) == r \in {"ok", "s503", "s406", "s400"}     \* the server consumed the whole body before answering
 
@@ -52,6 +55,9 @@ Bases == BaseList(cfg)
 
 Enc == IF accept = "" THEN "identity" ELSE Select(accept)
 Fenced(enc) == Guard = "all" \/ (Guard = "compressed" /\ enc # "identity")
+\* deviation "SwallowSourceError": the compressor finishes its stream cleanly when the source fails, so the server sees a
+\* well-formed body that is only a prefix, and answers it
+Swallowed(r) == r = "srcfault" /\ Variant = "SwallowSourceError" /\ Enc # "identity"
 
 Init ==
   /\ cfg \in {c \in Cfgs : c.down \subseteq 1..c.nb}
@@ -70,17 +76,20 @@ Respond(r) ==
   /\ (Bases[i] \in cfg.down) <=> (r = "refused")
   /\ r \notin {"ok", "refused"} => nfail < MaxFail
   /\ nfail' = IF r \in {"ok", "refused"} THEN nfail ELSE nfail + 1
-  /\ LET body == IF r = "refused" THEN "none" ELSE IF r = "early503" THEN "partial" ELSE IF dirty THEN "corrupt" ELSE "intact"
+  /\ LET body == IF r = "refused" THEN "none" ELSE IF r = "early503" THEN "partial" ELSE IF r = "srcfault" THEN "prefix"
+                 ELSE IF dirty THEN "corrupt" ELSE "intact"
+         \* did the server's read of the body end cleanly (so that it would go on and sign what it got)?
+         complete == FullBody(r) \/ Swallowed(r)
          \* compresshttp.Middleware picks the response encoding from the request's Accept-Encoding (net/http adds "gzip" when the
          \* client set none); error responses are never compressed
-         respEnc == IF r # "ok" THEN "identity"
+         respEnc == IF r # "ok" /\ ~Swallowed(r) THEN "identity"
                     ELSE IF Variant = "CompressUnasked" THEN "snappy"
                     ELSE IF accept = "" THEN "gzip" ELSE Select(accept)
-         rec == [base |-> Bases[i], enc |-> Enc, accept |-> accept, resp |-> r, body |-> body, respEnc |-> respEnc]
+         rec == [base |-> Bases[i], enc |-> Enc, accept |-> accept, resp |-> r, body |-> body, respEnc |-> respEnc, complete |-> complete]
      IN log' = Append(log, rec)
   \* request.Body.Close(): a reader that has not finished keeps running unless the close fences it
   /\ stale' = IF r = "early503" /\ ~Fenced(Enc) THEN stale \cup {Attempt} ELSE stale
-  /\ CASE r = "ok" -> outcome' = "ok" /\ phase' = "done" /\ UNCHANGED <<i, accept>>
+  /\ CASE r = "ok" \/ Swallowed(r) -> outcome' = "ok" /\ phase' = "done" /\ UNCHANGED <<i, accept>>
        [] r = "s406" /\ accept # "" /\ Variant # "No406Fallback" ->
             /\ accept' = ""
             /\ i' = IF Variant = "FallbackKeepsIndex" THEN i ELSE 1
@@ -130,7 +139,10 @@ TypeOK ==
   /\ outcome \in {"none", "ok", "error"} /\ dirty \in BOOLEAN /\ chk \subseteq 1..Len(log)
 
 \* what any server received in full is exactly the transform of the input
-BodyIntact == \A k \in 1..Len(log) : FullBody(log[k].resp) => log[k].body = "intact"
+BodyIntact == \A k \in 1..Len(log) : log[k].complete => log[k].body = "intact"
+
+\* a failure of the source is never reported as success
+SourceFaultFails == \A k \in 1..Len(log) : log[k].resp = "srcfault" => (k = Len(log) /\ outcome # "ok")
 
 \* each server is tried at most once per pass, and there are at most two passes (with / without compression)
 AttemptsBounded == Len(log) <= 2 * Len(Bases)
